@@ -534,6 +534,9 @@ pub enum ListOp {
     /// write the weight of the k-th remembered edge index through DataMapMut
     SetW(usize),
     Clone,
+    /// k edges out of one node (targets a, a+1, ... cyclically): rows longer than a narrow
+    /// index type can count
+    BulkEdges { a: usize, k: usize },
 }
 
 impl ListOp {
@@ -547,6 +550,7 @@ impl ListOp {
             ListOp::Clear => ("clear", 5),
             ListOp::SetW(_) => ("edge_weight_mut", 6),
             ListOp::Clone => ("clone", 7),
+            ListOp::BulkEdges { .. } => ("bulk_add_edges", 8),
         }
     }
 }
@@ -628,6 +632,7 @@ fn gen_list_op(rng: &mut Rng, cfg: &ListCfg, rows: &Rows, remembered: usize) -> 
                 ListOp::Clone
             }
         }
+        82 if n > 0 && rng.chance(1, 6) => ListOp::BulkEdges { a: rng.below(n), k: *rng.pick(&[40usize, 130, 270, 300]) },
         82..=93 if remembered > 0 => ListOp::SetW(rng.below(remembered)),
         94..=96 => ListOp::Clone,
         _ => ListOp::AddNode { how: 0, targets: vec![] },
@@ -727,6 +732,34 @@ fn run_list<Ix: IndexType>(name: &'static str, visit: bool, cfg: &ListCfg, mut f
                     (Err(_), false) => acc.fault("documented_panic"),
                     (Ok(_), false) => bail!(kind, "missing-panic", "{}({}, {}) succeeded with {} nodes", kind, a, b, n),
                     (Err(p), true) => bail!(kind, "panic", "{}({}, {}) panicked: {}", kind, a, b, p),
+                }
+            }
+            ListOp::BulkEdges { a, k } => {
+                let a = *a;
+                if a >= n {
+                    acc.probe("list_bulk_skipped_out_of_range");
+                } else {
+                    for j in 0..*k {
+                        let b = (a + j) % n;
+                        let w = fresh();
+                        let e = match catch(|| g.add_edge(Ix::new(a), Ix::new(b), w)) {
+                            Ok(e) => e,
+                            Err(p) => bail!(kind, "panic", "add_edge({}, {}) panicked with {} edges in the row: {}", a, b, rows[a].len(), p),
+                        };
+                        let rank = rows[a].len();
+                        rows[a].push((b, w));
+                        edges_added += 1;
+                        special += 1;
+                        let got = catch(|| (g.edge_endpoints(e).map(|(x, y)| (x.index(), y.index())), DataMap::edge_weight(&g, e).copied()));
+                        if got != Ok((Some((a, b)), Some(w))) {
+                            bail!(kind, "returned-index", "add_edge({}, {}) as edge number {} of its row returned an index that resolves to {:?}, expected endpoints ({}, {}) and weight {}", a, b, rank, got, a, b, w);
+                        }
+                        // remember a sample (the per-step check walks all remembered indices)
+                        if j % 16 == 0 || j + 1 == *k || rank == 255 || rank == 256 || rank == 257 {
+                            remembered.push((e, a, rank));
+                        }
+                    }
+                    acc.probe_if(rows[a].len() > 256, "list_row_longer_than_256");
                 }
             }
             ListOp::UpdateEdge { a, b } => {
